@@ -54,6 +54,9 @@ StaticProblems(i) ==
   ELSE IF Items[i].size_used # Len(Models[i]) THEN <<"size-used", Items[i].size_used, Len(Models[i])>>
   ELSE IF Items[i].size_pred # SizeOf(Asts[i][1]) THEN <<"size-predicted", Items[i].size_pred, SizeOf(Asts[i][1])>>
   ELSE IF Items[i].size_pred < Items[i].size_used THEN <<"capacity", Items[i].size_pred, Items[i].size_used>>
+  \* the library's own entry point analyze_dfa_size (what regex::expr and regex_term reserve); -2 = not driven
+  ELSE IF Items[i].size_api = -1 THEN <<"entry-point-rejects", Items[i].size_used>>
+  ELSE IF Items[i].size_api # -2 /\ Items[i].size_api < Items[i].size_used THEN <<"capacity-entry-point", Items[i].size_api, Items[i].size_used>>
   ELSE LET d == {q \in 1..Len(Models[i]) : ~StateSame(i, q)} IN
        IF d = {} THEN <<>> ELSE <<"state", (CHOOSE q \in d : TRUE) - 1>>
 StaticReported == wit # <<>> \/ StaticProblems(px) = <<>> \/ PrintT(<<"RXSTATIC", ToJson([id |-> Items[px].id, why |-> StaticProblems(px)])>>)
